@@ -56,7 +56,7 @@ def execute(sc) -> Result:
         account_run(res, run, sc)
         scheme = sc["tracker"].get("advection", "EF")
         res.history_key = "|".join(map(str, (hash(str(sc["grid"].get("mask"))) % 99991, scheme, diffusion))) \
-            + "|" + abstract_history(run)
+            + "|" + abstract_history(run, sc)
         v, foreign = crash_violation(ID, run, ANCHORS)
         if v is not None:
             res.add(v)
@@ -71,7 +71,7 @@ def execute(sc) -> Result:
         # ---- safety invariants on every snapshot after the move and after the IBM
         dead_since: dict[int, int] = {}
         for s in rec.snaps:
-            if s["label"] not in ("tracker.post", "ibm.post", "output.write", "forcing.post"):
+            if s["label"] not in ("tracker.post", "ibm.post", "output.pre", "forcing.post"):
                 continue
             X, Y = s["vars"]["X"].astype(float), s["vars"]["Y"].astype(float)
             alive = s["vars"]["alive"].astype(bool)
